@@ -40,7 +40,15 @@ var c14Profiles = []string{"foo", "foo.bar", "fooXbar", "foobar", "bar", "firefo
 var c14Filters = []string{"", "", "foo", "foo.bar", "bar", "fire", "foo//", "nomatch", "foo.b"}
 var c14NoiseNames = []string{"/etc/ld.so.cache", "/etc/ld.so.preload", "/usr/lib/libfoo.so.1", "/usr/lib64/libbar.so", "/usr/lib/locale/locale-archive",
 	"/usr/share/locale/fr/LC_MESSAGES/x.mo", "/usr/share/zoneinfo/UTC", "/dev/null", "/dev/zero", "/dev/full", "/dev/log", "/dev/random", "/dev/urandom"}
-var c14Names = []string{"/opt/a", "/etc/conf", "/srv/q/r-s", "/var/x", "/media/u/f", "/boot/k"}
+var c14Names = []string{"/opt/a", "/etc/conf", "/srv/q/r-s", "/var/x", "/media/u/f", "/boot/k",
+	// next to the documented noise paths, but not on them
+	"/usr/lib/firefox/libxul.so", "/usr/lib64/gcc/x/liby.so.1", "/usr/libx/foo.so", "/etc/ssl/x.so", "/usr/share/local/x",
+	// names with a counterpart that the path generalisation maps to the same pattern
+	"/home/alice/x", "/proc/4242/stat", "/run/user/1000/bus"}
+
+// c14Twin: a different name that is generalised to the same pattern. Two records that differ in
+// nothing else are still two accesses: only repeats identical up to timestamp and pid may be dropped.
+var c14Twin = map[string]string{"/home/alice/x": "/home/bob/x", "/proc/4242/stat": "/proc/4343/stat", "/run/user/1000/bus": "/run/user/1001/bus"}
 
 func (it C14Item) message(items []C14Item) string {
 	switch it.Kind {
@@ -52,6 +60,16 @@ func (it C14Item) message(items []C14Item) string {
 			o.Kind = "longrec"
 		}
 		return o.message(items)
+	case "variant":
+		// the record it.Of once more, from another user: same token, same everything, but a twin
+		// name (or, where the name has none, another fsuid)
+		o := items[it.Of]
+		o.Stamp, o.Pid = it.Stamp, it.Pid
+		msg := o.message(items)
+		if twin, ok := c14Twin[o.Name]; ok {
+			return strings.Replace(msg, `name="`+o.Name+`"`, `name="`+twin+`"`, 1)
+		}
+		return strings.Replace(msg, "fsuid=0 ", "fsuid=1000 ", 1)
 	case "rec", "noise", "longrec":
 		name := it.Name
 		if it.Kind == "longrec" {
@@ -118,8 +136,12 @@ func (c C14Case) expected() []string {
 	seen := map[string]bool{}
 	for _, it := range c.Items {
 		o := it
-		if it.Kind == "repeat" {
+		key := ""
+		if it.Kind == "repeat" || it.Kind == "variant" {
 			o = c.Items[it.Of]
+		}
+		if it.Kind == "variant" {
+			key = "#variant"
 		}
 		if o.Kind != "rec" && o.Kind != "longrec" {
 			continue
@@ -127,10 +149,10 @@ func (c C14Case) expected() []string {
 		if !strings.HasPrefix(o.Profile, c.Filter) {
 			continue
 		}
-		if seen[o.Token] {
+		if seen[o.Token+key] {
 			continue
 		}
-		seen[o.Token] = true
+		seen[o.Token+key] = true
 		res = append(res, o.Token)
 	}
 	return res
@@ -145,7 +167,7 @@ func genC14Case(t *rapid.T) C14Case {
 	allowLong := chance(t, "allowlong", 5) // very long lines are slow to process: one case in five has them
 	nlong := 0
 	for i := 0; i < n; i++ {
-		kind := pick(t, "kind", []string{"rec", "rec", "rec", "rec", "repeat", "repeat", "status", "foreign", "noise", "blank", "garbled", "binary", "long", "longrec"})
+		kind := pick(t, "kind", []string{"rec", "rec", "rec", "rec", "repeat", "repeat", "variant", "status", "foreign", "noise", "blank", "garbled", "binary", "long", "longrec"})
 		if kind == "long" || kind == "longrec" {
 			if !allowLong || nlong >= 2 {
 				kind = "foreign"
@@ -173,6 +195,18 @@ func genC14Case(t *rapid.T) C14Case {
 			var cands []int
 			for j, o := range c.Items {
 				if o.Kind == "rec" || o.Kind == "longrec" {
+					cands = append(cands, j)
+				}
+			}
+			if len(cands) == 0 {
+				it.Kind = "blank"
+			} else {
+				it.Of = cands[rapid.IntRange(0, len(cands)-1).Draw(t, "of")]
+			}
+		case "variant":
+			var cands []int
+			for j, o := range c.Items {
+				if o.Kind == "rec" && !o.Dbus {
 					cands = append(cands, j)
 				}
 			}
@@ -291,11 +325,11 @@ func c14Nontrivial(c C14Case) string {
 		switch it.Kind {
 		case "long", "longrec", "garbled", "binary", "foreign", "blank":
 			hostileSeen = true
-		case "repeat":
+		case "repeat", "variant":
 			dup = true
 		}
 		o := it
-		if it.Kind == "repeat" {
+		if it.Kind == "repeat" || it.Kind == "variant" {
 			o = c.Items[it.Of]
 		}
 		if (o.Kind == "rec" || o.Kind == "longrec") && strings.HasPrefix(o.Profile, c.Filter) && hostileSeen {
